@@ -162,6 +162,69 @@ def snippet(cfg, faults, clause):
             'assert %r not in [c for c, _, _ in v], v\n' % (cfg, sorted(faults), clause))
 
 
+REUSE_HDR = ('import os, stat, tempfile\nfrom boltons.fileutils import AtomicSaver\n'
+             'def mode(p): return stat.S_IMODE(os.stat(p).st_mode)\n')
+
+
+def saver_reuse(H, root):
+    """the SAME AtomicSaver object used for two saves (a retry after a failed attempt, or a second save): every save must
+    select the permissions from the state of the destination at the time of THAT save, and a failed attempt must not leave
+    anything behind that changes the next one"""
+    import stat as _stat
+    from boltons.fileutils import AtomicSaver
+
+    def mode(p):
+        return _stat.S_IMODE(os.stat(p).st_mode)
+    for um in (0o022, 0o027, 0o077):
+        for perms in (None, 0o640):
+            for first in ('absent, first attempt fails', 'present 0o644, first attempt fails, then chmod 0o600',
+                          'present 0o600, first save succeeds, then chmod 0o644'):
+                sub = tempfile.mkdtemp(prefix='reuse-', dir=root)
+                prev = os.umask(um)
+                wit = dict(umask=oct(um), file_perms=None if perms is None else oct(perms), scenario=first)
+                try:
+                    dest = os.path.join(sub, 'dest.bin')
+                    if not first.startswith('absent'):
+                        with open(dest, 'wb') as f:
+                            f.write(b'old')
+                        os.chmod(dest, 0o644 if '0o644, first' in first else 0o600)
+                    sv = AtomicSaver(dest, file_perms=perms)
+                    fails = 'fails' in first
+                    try:
+                        with sv as f:
+                            f.write(b'first')
+                            if fails:
+                                raise F.BodyError('body failed')
+                    except F.BodyError:
+                        pass
+                    if first.startswith('present'):
+                        os.chmod(dest, 0o600 if fails else 0o644)
+                    want_mode = perms if perms is not None else (0o666 & ~um if first.startswith('absent') else (0o600 if fails else 0o644))
+                    exc = None
+                    try:
+                        with sv as f:
+                            f.write(b'second')
+                    except BaseException as e:  # noqa
+                        exc = e
+                    H.ev(key=('reuse', um, perms, first), nontrivial=True, part='saver object reused', sample=wit)
+                    got = (open(dest, 'rb').read() if os.path.exists(dest) else None, mode(dest) if os.path.exists(dest) else None,
+                           sorted(os.listdir(sub)))
+                    if exc is not None or got[0] != b'second' or got[2] != ['dest.bin']:
+                        H.fail('retry_succeeds', 'AtomicSaver.__enter__', 'the same AtomicSaver object used again after %s'
+                               % ('a failed attempt' if fails else 'a completed save'), wit,
+                               'second save: exception %r, destination %r, listing %r' % (exc, got[0], got[2]))
+                    elif got[1] != want_mode:
+                        H.fail('permission_selection', 'AtomicSaver._open_part_file',
+                               'the same AtomicSaver object used again: permissions taken from an earlier attempt', wit,
+                               'mode %s expected %s' % (oct(got[1]), oct(want_mode)),
+                               REUSE_HDR + 'os.umask(0o027); d = tempfile.mkdtemp(); p = os.path.join(d, "x")\nopen(p, "w").write("v1"); os.chmod(p, 0o644)\n'
+                               'sv = AtomicSaver(p)\ntry:\n    with sv as f:\n        f.write(b"a"); raise KeyError\nexcept KeyError: pass\n'
+                               'os.chmod(p, 0o600)\nwith sv as f: f.write(b"b")\nassert mode(p) == 0o600, oct(mode(p))\n')
+                finally:
+                    os.umask(prev)
+                    shutil.rmtree(sub, ignore_errors=True)
+
+
 def run():
     H = Harness('C05',
                 rule='one evaluation = one real save with OSError injected at a set of interposed events (none, one, or a pair), '
@@ -169,7 +232,8 @@ def run():
                      'non-trivial = every injected fault was reached, or the fault-free run of a configuration that must be refused / whose body raises',
                 bounds=dict(quick='singles: overwrite x overwrite_part x rm_part_on_exc x text_mode x file_perms {None,0o600,0o644} x umask {022,077} '
                                   'x dest {absent,present} x part {absent,present} x body {ok, raises, dest appears (overwrite=False)}: every event; '
-                                  'pairs: the same with text_mode=False, umask=022, file_perms in {None,0o600}',
+                                  'pairs: the same with text_mode=False, umask=022, file_perms in {None,0o600}; the same AtomicSaver object used for two '
+                                  'saves (failed attempt then retry / two completed saves) x umask {022,027,077} x file_perms {None,0o640}',
                             thorough='singles and all pairs (k, j>k along the path after fault k) for the full product'))
     root = tempfile.mkdtemp(prefix='verif-C05-')
     nfail = [0]
@@ -215,6 +279,7 @@ def run():
                     for j in range(i + 1, len(logs[i])):
                         # same defect as the fault-free run / the single fault when that already breaks the clause
                         one(cfg, {i, j}, dict(single[i], **res0))
+        saver_reuse(H, root)
     finally:
         shutil.rmtree(root, ignore_errors=True)
     H.finish()
